@@ -106,7 +106,36 @@ def sweep_iter(tier, seed):
           yield dict(N=n, batch_size=b, num_steps=k, skip_shuffle=skip, seed=(seed + n * 31 + b) % 1000)
 
 
-CHECKERS = {'steps': (check_steps, sweep_steps), 'iter': (check_iter, sweep_iter)}
+def check_entry(inp):
+  """ClientDataset.shuffle_repeat_batch(hparams, **overrides): the number of batches is the documented function of the
+  EFFECTIVE hyper-parameters, i.e. hparams with every keyword override applied - None and other falsy values included."""
+  n, b = inp['N'], inp['batch_size']
+  base = dict(batch_size=b, num_epochs=inp['hp_epochs'], num_steps=inp['hp_steps'], drop_remainder=inp['hp_drop'], seed=5)
+  ov = dict(inp['override'])
+  eff = dict(base, **ov)
+  want = expected_steps(n, eff['batch_size'], eff['num_epochs'], eff['num_steps'], eff['drop_remainder'])
+  view = ds(n).shuffle_repeat_batch(cds.ShuffleRepeatBatchHParams(**base), **ov)
+  got = sum(1 for _ in itertools.islice(iter(view), 200))
+  if want is None:
+    want = 200   # infinite stream
+  if got != want:
+    return (f'shuffle_repeat_batch(ShuffleRepeatBatchHParams({base}), **{ov}) on {n} examples yields {got} batches; the '
+            f'documented count for the effective hyper-parameters {eff} is {want}')
+
+
+def sweep_entry(tier, seed):
+  for n, b in ((5, 2), (6, 3), (1, 4)):
+    for hp_e, hp_s in ((1, 3), (2, None), (None, 4), (3, 2)):
+      for ov in ({'num_epochs': None}, {'num_steps': None}, {'drop_remainder': False}, {'drop_remainder': True},
+                 {'num_epochs': None, 'num_steps': 7}, {'num_steps': 0}, {'num_epochs': 0}, {'batch_size': 1}):
+        eff_e = ov.get('num_epochs', hp_e)
+        eff_s = ov.get('num_steps', hp_s)
+        if tier == 'quick' and eff_e is None and eff_s is None and n == 6:
+          continue
+        yield dict(N=n, batch_size=b, hp_epochs=hp_e, hp_steps=hp_s, hp_drop=True, override=ov)
+
+
+CHECKERS = {'steps': (check_steps, sweep_steps), 'iter': (check_iter, sweep_iter), 'entry': (check_entry, sweep_entry)}
 
 if __name__ == '__main__':
   sys.exit(common.main(CHECKERS))
